@@ -183,7 +183,7 @@ def ktd_module(tier):
 
 def build(tier, seed):
     quick = tier == "quick"
-    tmo = 90 if quick else 900
+    tmo = 90 if quick else 300
     m = Module("c01_l1").pre(L1)
     fam = "L1 leaf pairs: load(dump(x)) == x"
     m.ob("int", "x: int", "return rt(int, x)", timeout=tmo, family=fam, bounds="every int")
